@@ -87,26 +87,34 @@ type Variant struct {
 	Alt string // "" = legacy rule at every step
 }
 
-// HardenedPath derives master/steps... with every step hardened.  The first
-// variant follows the legacy rule throughout; further variants (only when a
-// parent private key has a leading zero byte, where the rules differ) use the
-// standard rule at some steps.
-func HardenedPath(master *Key, steps []uint32) ([]Variant, error) {
+// HardenedPath derives master/steps... with every step hardened.  rules[i] is
+// the rule btcsuite effectively applies at step i (DeriveNonStandard pads a key
+// whose in-memory bytes lost their leading zeros on the wrong side; a key that
+// was just created by NewMaster or parsed from its serialization still has all
+// 32 bytes, and the step is then the standard one).  The first variant follows
+// rules throughout; further variants (only when a parent private key has a
+// leading zero byte, the only case in which the two rules differ) use the other
+// rule at some steps.
+func HardenedPath(master *Key, steps []uint32, rules []Rule) ([]Variant, error) {
 	cur := []Variant{{Key: master}}
 	for depth, s := range steps {
 		var next []Variant
 		for _, v := range cur {
-			k, err := v.Key.Child(s+HardenedStart, Legacy)
+			k, err := v.Key.Child(s+HardenedStart, rules[depth])
 			if err != nil {
 				return nil, err
 			}
 			next = append(next, Variant{Key: k, Alt: v.Alt})
 			if v.Key.LeadingZero() {
-				k2, err := v.Key.Child(s+HardenedStart, Standard)
+				other, name := Standard, "std@"
+				if rules[depth] == Standard {
+					other, name = Legacy, "legacy@"
+				}
+				k2, err := v.Key.Child(s+HardenedStart, other)
 				if err != nil {
 					return nil, err
 				}
-				next = append(next, Variant{Key: k2, Alt: v.Alt + "std@" + string(rune('0'+depth))})
+				next = append(next, Variant{Key: k2, Alt: v.Alt + name + string(rune('0'+depth))})
 			}
 		}
 		cur = next
